@@ -176,3 +176,138 @@ func checkPartyLoops(c *Ctx, r *Run, rule string, fns []*ssa.Function) {
 		}
 	}
 }
+
+// checkArrayLoops: an index loop `for i := 0; i < K; i++` with constant K whose body indexes a fixed-size array
+// [N]T with i walks the whole array (K == N). Covers per-repetition proof responses (zkmod, zkprm), OT columns, field
+// elements. Loops with a non-constant bound, downward loops and offset accesses are not this rule's business.
+func checkArrayLoops(c *Ctx, r *Run, rule string, fns []*ssa.Function) {
+	// pool.Parallelize(K, func(i int) ...) is a loop too: the task indexes arrays with its parameter
+	for _, fn := range fns {
+		n := 0
+		allInstrs(fn, func(in ssa.Instruction) {
+			call, ok := in.(*ssa.Call)
+			if !ok {
+				return
+			}
+			o := calleeObj(call)
+			if o == nil || o.Name() != "Parallelize" || len(call.Call.Args) < 3 {
+				return
+			}
+			bound, isConst := constInt(call.Call.Args[len(call.Call.Args)-2])
+			if !isConst {
+				return
+			}
+			mc, ok := call.Call.Args[len(call.Call.Args)-1].(*ssa.MakeClosure)
+			if !ok {
+				return
+			}
+			task := mc.Fn.(*ssa.Function)
+			if len(task.Params) != 1 {
+				return
+			}
+			lens := map[int64]string{}
+			allInstrs(task, func(x ssa.Instruction) {
+				var base, index ssa.Value
+				switch y := x.(type) {
+				case *ssa.IndexAddr:
+					base, index = y.X, y.Index
+				case *ssa.Index:
+					base, index = y.X, y.Index
+				default:
+					return
+				}
+				if stripConv(index) != ssa.Value(task.Params[0]) {
+					return
+				}
+				t := base.Type()
+				if pt, ok := t.Underlying().(*types.Pointer); ok {
+					t = pt.Elem()
+				}
+				if arr, ok := t.Underlying().(*types.Array); ok {
+					lens[arr.Len()] = path(base)
+				}
+			})
+			if len(lens) == 0 {
+				return
+			}
+			n++
+			r.Analysed(c.FuncName(fn))
+			ok2, detail := true, ""
+			for l, what := range lens {
+				if l != bound {
+					ok2 = false
+					detail = fmt.Sprintf("Parallelize runs %d tasks but each task indexes %s, an array of %d elements", bound, what, l)
+				}
+			}
+			r.Check(rule, fmt.Sprintf("%s|parallel loop #%d (count %d)", c.FuncName(fn), n, bound), c.Pos(call.Pos()), ok2,
+				fmt.Sprintf("the %d parallel tasks cover all elements of the arrays they index", bound),
+				detail+": the remaining elements are never examined/produced (e.g. proof repetitions that are not verified)")
+		})
+	}
+	for _, fn := range fns {
+		k := 0
+		for _, b := range fn.Blocks {
+			if len(b.Instrs) == 0 || !blockInLoop(b) {
+				continue
+			}
+			iff, ok := b.Instrs[len(b.Instrs)-1].(*ssa.If)
+			if !ok {
+				continue
+			}
+			bo, ok := iff.Cond.(*ssa.BinOp)
+			if !ok || bo.Op != token.LSS {
+				continue
+			}
+			bound, ok := constInt(bo.Y)
+			if !ok {
+				continue
+			}
+			idx := bo.X
+			// arrays indexed with idx
+			lens := map[int64][]string{}
+			allInstrs(fn, func(in ssa.Instruction) {
+				var base ssa.Value
+				var index ssa.Value
+				switch x := in.(type) {
+				case *ssa.IndexAddr:
+					base, index = x.X, x.Index
+				case *ssa.Index:
+					base, index = x.X, x.Index
+				default:
+					return
+				}
+				if stripConv(index) != idx {
+					return
+				}
+				t := base.Type()
+				if pt, ok := t.Underlying().(*types.Pointer); ok {
+					t = pt.Elem()
+				}
+				if arr, ok := t.Underlying().(*types.Array); ok {
+					lens[arr.Len()] = append(lens[arr.Len()], path(base))
+				}
+			})
+			if len(lens) == 0 {
+				continue
+			}
+			k++
+			r.Analysed(c.FuncName(fn))
+			var ns []int64
+			for n := range lens {
+				ns = append(ns, n)
+			}
+			sort.Slice(ns, func(i, j int) bool { return ns[i] < ns[j] })
+			ok2 := true
+			detail := ""
+			for _, n := range ns {
+				if n != bound {
+					ok2 = false
+					detail = fmt.Sprintf("the loop runs i < %d but indexes %s, an array of %d elements", bound, lens[n][0], n)
+				}
+			}
+			r.Check(rule, fmt.Sprintf("%s|array loop #%d (bound %d)", c.FuncName(fn), k, bound), c.Pos(iff.Cond.Pos()), ok2,
+				fmt.Sprintf("the loop walks all %d elements of the arrays it indexes", bound),
+				detail+": the remaining elements are never examined/produced (e.g. proof repetitions that are not verified, columns that are not checked)")
+		}
+	}
+}
